@@ -266,6 +266,10 @@ def rng_job(interp, c, case):
     if seed == 5489:
         c.prove(got[0] == 14514284786278117030, "known answer: first output for seed 5489 is 14514284786278117030",
                 info={"sig": "genrand64 known answer", "what": "5489"})
+        for f_ in c.failures:
+            f_.setdefault("replay", None)
+            if f_["replay"] is None:
+                f_["replay"] = {"kind": "rng", "seed": seed}
     R.ns["seed_random"](seed)
     u = R.ns["uniform_rv"]() if "uniform_rv" in R.funcs else None
 
